@@ -110,6 +110,10 @@ impl Shape {
 
 #[derive(Clone, Debug, PartialEq, Eq)]
 enum Op {
+    /// view-only: every conversion getter at every amount of the alphabet (plus two large
+    /// arguments) and the two maxima of both users against the exact formula, in the current
+    /// state. Changes nothing, hence reported to the engine as "state unchanged".
+    Sweep,
     /// `f(a, receiver, owner_or_from, operator)`; `owner` provides the assets (deposit, mint) or
     /// owns the shares (withdraw, redeem)
     Call { f: F, owner: usize, operator: usize, receiver: usize, a: i128 },
@@ -129,8 +133,6 @@ struct Obs {
     a_allow: [[i128; U]; U],
     /// share allowance [owner][spender] between the two users
     s_allow: [[i128; U]; U],
-    max_w: [i128; U],
-    max_r: [i128; U],
 }
 
 #[derive(Clone, Debug)]
@@ -303,8 +305,6 @@ impl VaultW {
             supply: self.must(i, &i.vault, "total_supply", SVec::new(e))?,
             a_allow: [[0; U]; U],
             s_allow: [[0; U]; U],
-            max_w: [0; U],
-            max_r: [0; U],
         };
         for k in 0..NP {
             o.asset[k] = self.must(i, &i.asset, "balance", (i.p[k].clone(),).into_val(e))?;
@@ -317,8 +317,6 @@ impl VaultW {
                     o.s_allow[a][b] = self.must(i, &i.vault, "allowance", (i.p[a].clone(), i.p[b].clone()).into_val(e))?;
                 }
             }
-            o.max_w[a] = self.must(i, &i.vault, "max_withdraw", (i.p[a].clone(),).into_val(e))?;
-            o.max_r[a] = self.must(i, &i.vault, "max_redeem", (i.p[a].clone(),).into_val(e))?;
         }
         let ta = self.must(i, &i.vault, "total_assets", SVec::new(e))?;
         ensure!(ta == o.asset[V], "total-assets", "total_assets() = {ta} but the vault holds {} of the asset", o.asset[V]);
